@@ -43,7 +43,7 @@ CHECKS = {
          "Sequential histories over varying targets check at-most-once execution and that every later use observes execution #0 (values or the identical error). Concurrent first-use rounds (GOMAXPROCS 1-16, perturbation at the memo check/call/store hooks and inside the body) record exec and use operations with real-time intervals; porcupine decides each history; the race detector watches the memo.",
          "Porcupine timeout = inconclusive; race freedom only for interleavings that occurred.", "5/C11"),
  "C12": ("Go race detector over a hostile sharing workload + per-call outcome/isolation oracles on the provenance log",
-         "One target, its default options, converter objects, one option slice with every option constructor, a shared redefined function and shared value sets are hammered by 4-16 goroutines doing Call/Convert/Redefine/redefined calls with per-call inputs; any race report is a violation; outcomes must equal the sequential reference; provenance of every execution's arguments must stay within one call (or shared constants).",
+         "One target, its default options, converter objects, one option slice with every option constructor, a shared redefined function and shared value sets are hammered by 4-16 goroutines doing Call/Convert/Redefine/redefined calls with per-call inputs; any race report is a violation; outcomes must equal the sequential reference; provenance of every execution's arguments must stay within one call (or shared constants). A further family shares a function with 2-14 default options between 8-16 goroutines that pass only 1-3 call-time options each (their own values must come back).",
          "BuildFunc functions excluded as the property states; the monitor's own state is mutex protected; reports are deduplicated by top-frame pair.", "5/C12"),
  "C14": ("round-trip oracle: Go signatures generated from label lists vs. introspection results; static rejected shapes",
          "Function types are generated from label lists in every form with the documented tag options, unexported fields and every error-result position; Input()/Output().Values() and the lookups must reproduce the list exactly; 15 static struct shapes and non-function values cover the required rejections.",
